@@ -85,6 +85,25 @@ class Source:
                 return node.value
         return None
 
+    def assigned_self_attrs(self, clsqual):
+        """names X for which some method of the class executes `self.X = ...` / `self.X += ...`"""
+        cache = self.__dict__.setdefault('_assigned_cache', {})
+        if clsqual in cache:
+            return cache[clsqual]
+        out = set()
+        for node in ast.walk(self.classes[clsqual]):
+            tg = []
+            if isinstance(node, ast.Assign):
+                tg = node.targets
+            elif isinstance(node, (ast.AugAssign, ast.AnnAssign)):
+                tg = [node.target]
+            for t in tg:
+                for t2 in (t.elts if isinstance(t, (ast.Tuple, ast.List)) else [t]):
+                    if isinstance(t2, ast.Attribute) and isinstance(t2.value, ast.Name) and t2.value.id == 'self':
+                        out.add(t2.attr)
+        cache[clsqual] = out
+        return out
+
     def class_bases(self, clsqual):
         out = []
         for b in self.classes[clsqual].bases:
